@@ -98,7 +98,7 @@ def big_class(history):
 
 # ------------------------------------------------------------------ one history on the real code
 def run_job(job):
-    import pandas as pd
+    import pandas as pd, numpy as np
     from pyg_base import bi_merge, bi_read, Bi
     warnings.filterwarnings('ignore')
     history = [(int(s), {int(d): dec(x) for d, x in v.items()}) for s, v in job['history']]
@@ -109,8 +109,12 @@ def run_job(job):
         ds = sorted(v)
         return Bi(pd.Series([v[d] for d in ds], pd.DatetimeIndex([date(d) for d in ds]), dtype=float), stamp(s))
 
-    def read(store, T, what):
-        r = bi_read(store, what=what) if T is None else bi_read(store, stamp(T), what)
+    def spell_asof(T, how):
+        t = stamp(T)
+        return t if how == 'datetime' else pd.Timestamp(t) if how == 'Timestamp' else np.datetime64(t)
+
+    def read(store, T, what, how='datetime'):
+        r = bi_read(store, what=what) if T is None else bi_read(store, spell_asof(T, how), what)
         if isinstance(r, pd.DataFrame):
             if r.shape[1] != 1:
                 raise TypeError('bi_read returned a frame with columns %s' % list(r.columns))
@@ -158,6 +162,18 @@ def run_job(job):
             elif wrong:
                 out.append((K_FIRST, 'history (stamp, {date: value}) %s: bi_read(asof=%s, what=0) = %s, but the first value published per date is %s (dates %s: several '
                             'publications share the first stamp and the store keeps the one merged last)' % (job['history'], T, got, lit, wrong), call))
+        elif agree(got, exp) and T is not None and what == -1:
+            # the read time in its other spellings (pandas Timestamp, numpy datetime64) sees the same store
+            for how in ('Timestamp', 'datetime64'):
+                n += 1
+                try:
+                    other = read(store, T, what, how)
+                except Exception as e:      # noqa
+                    out.append(('C17:read:raises:asof-as-' + how, 'history %s: bi_read(asof=%s as %s) raised %s: %s' % (job['history'], T, how, type(e).__name__, e), call))
+                    continue
+                if not agree(other, exp):
+                    out.append(('C17:asof:read-time-as-' + how + big, 'history (stamp, {date: value}) %s: bi_read(asof=%s given as %s) = %s, expected %s' % (
+                        job['history'], T, how, other, exp), call))
         elif not agree(got, exp):
             out.append(('C17:asof:what=%d' % what + big, 'history (stamp, {date: value}) %s: bi_read(asof=%s, what=%d) = %s, expected %s' % (job['history'], T, what, got, exp), call))
     # merging a version that is in the store leaves every read unchanged: the last version, and any earlier version whose rows are
